@@ -31,6 +31,8 @@ func C07(r *core.Report) {
 	c07LimitCountsWholeResult(r)
 	c07OptionPointersDistinct(r)
 	rangeSelectionInclusive(r, "C07.R8")
+	c07EveryFoundEntryAnswered(r)
+	r.Floor("C07.R9", 1)
 	r.Floor("C07.R8", 1)
 	r.Floor("C07.R1", 3)
 	r.Floor("C07.R2", 4)
@@ -729,7 +731,7 @@ func c07OptionPointersDistinct(r *core.Report) {
 	nPtr := 0
 	ast.Inspect(f.Body, func(n ast.Node) bool {
 		as, ok := n.(*ast.AssignStmt)
-		if !ok || len(as.Lhs) != len(as.Rhs) {
+		if !ok {
 			return true
 		}
 		for i, l := range as.Lhs {
@@ -741,6 +743,9 @@ func c07OptionPointersDistinct(r *core.Report) {
 				continue
 			}
 			nPtr++
+			if len(as.Lhs) != len(as.Rhs) {
+				continue // result of a helper call: not the address of a local of this function
+			}
 			if u, ok := core.Unparen(as.Rhs[i]).(*ast.UnaryExpr); ok && u.Op == token.AND {
 				if o := core.ObjOf(info, u.X); o != nil {
 					byVar[o] = append(byVar[o], store{core.ExprStr(sel), as})
@@ -851,4 +856,156 @@ func rangeSelectionInclusive(r *core.Report, rule string) {
 	if n == 0 {
 		r.Undecided(rule, f.Key+"#selection", posP(r, f.Pos()), "no append of a selected epoch found")
 	}
+}
+
+// c07EveryFoundEntryAnswered (C07.R9): the response array is sized for every entry the readers returned; the loops that
+// fill it must reach every one of them. The loop over the epochs that writes response[i] has no way out before its last
+// element - no break, no success return - and it walks a list that covers the found epochs (built from the keys of the
+// found map, or the reader list with absent epochs skipped by `continue`).
+func c07EveryFoundEntryAnswered(r *core.Report) {
+	const rule = "C07.R9"
+	f := r.Anchor(rule, "main.(*MultiEpoch).handleGetSignaturesForAddress")
+	if f == nil {
+		return
+	}
+	info := f.Pkg.TypesInfo
+	// the response slice: make([]map[string]any, countTransactions(found))
+	var resp, found types.Object
+	ast.Inspect(f.Body, func(n ast.Node) bool {
+		as, ok := n.(*ast.AssignStmt)
+		if !ok || len(as.Lhs) != 1 || len(as.Rhs) != 1 {
+			return true
+		}
+		c, ok := core.Unparen(as.Rhs[0]).(*ast.CallExpr)
+		if !ok || core.BuiltinName(info, c) != "make" || len(c.Args) != 2 {
+			return true
+		}
+		if cc, ok := core.Unparen(c.Args[1]).(*ast.CallExpr); ok && len(cc.Args) == 1 {
+			if _, isMap := info.TypeOf(cc.Args[0]).Underlying().(*types.Map); isMap {
+				resp, found = core.ObjOf(info, as.Lhs[0]), core.ObjOf(info, cc.Args[0])
+			}
+		}
+		return true
+	})
+	if resp == nil || found == nil {
+		r.Undecided(rule, f.Key+"#response-array", posP(r, f.Pos()), "the response array sized from the found transactions was not identified")
+		return
+	}
+	// the outermost range loop (directly in f, not in a literal) that contains a store into resp
+	var loop *ast.RangeStmt
+	ast.Inspect(f.Body, func(n ast.Node) bool {
+		rs, ok := n.(*ast.RangeStmt)
+		if !ok || loop != nil {
+			return true
+		}
+		stores := false
+		ast.Inspect(rs.Body, func(m ast.Node) bool {
+			if as, ok := m.(*ast.AssignStmt); ok {
+				for _, l := range as.Lhs {
+					if ix, ok := core.Unparen(l).(*ast.IndexExpr); ok && core.ObjOf(info, ix.X) == resp {
+						stores = true
+					}
+				}
+			}
+			return true
+		})
+		if stores {
+			loop = rs
+			return false
+		}
+		return true
+	})
+	if loop == nil {
+		r.Undecided(rule, f.Key+"#fill-loop", posP(r, f.Pos()), "the loop that fills the response array was not found")
+		return
+	}
+	bad := ""
+	var walk func(n ast.Node, depth int)
+	walk = func(n ast.Node, depth int) {
+		ast.Inspect(n, func(m ast.Node) bool {
+			switch s := m.(type) {
+			case *ast.FuncLit:
+				return false
+			case *ast.ForStmt:
+				if m != n {
+					walk(s.Body, depth+1)
+					return false
+				}
+			case *ast.RangeStmt:
+				if m != n {
+					walk(s.Body, depth+1)
+					return false
+				}
+			case *ast.SwitchStmt, *ast.SelectStmt, *ast.TypeSwitchStmt:
+				if m != n {
+					walk(s.(ast.Node), depth+1) // an unlabelled break inside only leaves the switch
+					return false
+				}
+			case *ast.BranchStmt:
+				if s.Tok == token.BREAK && (depth == 0 || s.Label != nil) {
+					bad = "leaves the loop over the epochs early (break at " + r.Prog.Rel(s.Pos()) + ")"
+				}
+				if s.Tok == token.GOTO {
+					bad = "jumps out of the loop over the epochs (goto at " + r.Prog.Rel(s.Pos()) + ")"
+				}
+			}
+			return true
+		})
+	}
+	walk(loop.Body, 0)
+	// coverage of the walked list
+	covers := false
+	lo := core.ObjOf(info, loop.X)
+	if lo == found {
+		covers = true
+	}
+	ast.Inspect(f.Body, func(n ast.Node) bool {
+		rs, ok := n.(*ast.RangeStmt)
+		if !ok || core.ObjOf(info, rs.X) != found {
+			return true
+		}
+		for _, st := range rs.Body.List {
+			if as, ok := st.(*ast.AssignStmt); ok && len(as.Rhs) == 1 && core.ObjOf(info, as.Lhs[0]) == lo {
+				if c, ok := core.Unparen(as.Rhs[0]).(*ast.CallExpr); ok && core.BuiltinName(info, c) == "append" {
+					covers = true // list of the map's keys
+				}
+			}
+		}
+		return true
+	})
+	if !covers && lo != nil {
+		// the list of epochs of the readers (second result of getGsfaReadersInEpochDescendingOrder) covers every found epoch
+		if d := singleDefTuple(f, lo); d != nil && strings.HasSuffix(core.CalleeName(info, d), "getGsfaReadersInEpochDescendingOrder") {
+			covers = true
+		}
+	}
+	switch {
+	case bad != "":
+		r.Violation(rule, f.Key+"#fill-loop-reaches-every-epoch", pos(r, loop), "the loop that writes the response "+bad+": entries of the epochs not reached stay null in the answer")
+	case !covers:
+		r.Violation(rule, f.Key+"#fill-loop-reaches-every-epoch", pos(r, loop), "the loop that writes the response walks "+core.ExprStr(loop.X)+", which is not known to cover every epoch of the found transactions")
+	default:
+		r.OK(rule, f.Key+"#fill-loop-reaches-every-epoch", pos(r, loop), "the loop that writes the response walks every found epoch and has no early exit")
+	}
+}
+
+// singleDefTuple: the call whose multi-value result defines o (a, o := call()).
+func singleDefTuple(f *core.Func, o types.Object) *ast.CallExpr {
+	info := f.Pkg.TypesInfo
+	var out *ast.CallExpr
+	ast.Inspect(f.Body, func(n ast.Node) bool {
+		as, ok := n.(*ast.AssignStmt)
+		if !ok || len(as.Rhs) != 1 || len(as.Lhs) < 2 {
+			return true
+		}
+		for _, l := range as.Lhs {
+			if core.ObjOf(info, l) == o {
+				if c, ok := core.Unparen(as.Rhs[0]).(*ast.CallExpr); ok {
+					out = c
+				}
+			}
+		}
+		return true
+	})
+	return out
 }
